@@ -9,5 +9,6 @@ import Crd.Props.C11
 #print axioms Crd.Props.C11.duration_leading_zeros
 #print axioms Crd.Props.C11.unicode_signs_lex
 #print axioms Crd.Props.C11.unicode_signs_mean
+#print axioms Crd.Props.C11.every_accepted_sign_known
 #print axioms Crd.Props.C11.same_accidental_same_chord
 #print axioms Crd.Props.C11.accepted_accidental_honoured
